@@ -21,7 +21,7 @@ import ast
 from ..core import AnalysisError, norm, short
 from .. import effects
 from ..loader import ClassInfo
-from .dispatch import DispatchView, strip_not, resolve_local
+from .dispatch import DispatchView, strip_not, resolve_local, run_group
 from .common import (cfg_of, fkey, conds, has_cond, cond_texts, stmts_of, walk_body, call_tail, call_name, returns_of,
                      raises_of, raise_type, stmt_of, kwarg, names_loaded, implies_absent, implies_present)
 
@@ -104,15 +104,15 @@ def run(rep):
 
     # each group is analysed on its own: a construct one group cannot follow does not hide the verdicts of the others
     n_gaps = len(rep.gaps)
-    rep.guard(order_rules)
-    rep.guard(loop_rules)
+    run_group(rep, order_rules)
+    run_group(rep, loop_rules)
     if len(rep.gaps) == n_gaps:     # (the floors count instances of groups that ran to the end)
         rep.guard(lambda: rep.floor('R06.a', 5))
         rep.guard(lambda: rep.floor('R06.b', 9))
-    rep.guard(_sentinel_rules, rep, repo, app, route)
-    rep.guard(_method_rules, rep, repo, app, route)
+    run_group(rep, _sentinel_rules, rep, repo, app, route)
+    run_group(rep, _method_rules, rep, repo, app, route)
     rep.guard(lambda: rep.floor('R06.d', 12))
-    rep.guard(_allow_rules, rep, repo, err)
+    run_group(rep, _allow_rules, rep, repo, err)
 
 
 def check_running_index(rep, rule):
